@@ -92,11 +92,11 @@ def allocMap (entries : List (Val × Val)) : EM Nat := fun s => (.ok s.heap.size
 def heapSlice (addr : Nat) : EM (Array Val) := do
   match (← getS).heap[addr]? with
   | some (.slice items) => pure items
-  | _ => fatal (.crash "heap: not a slice")
+  | _ => unsupported "heap address is not a slice (cannot arise from the evaluator or the descriptors)"
 def heapMap (addr : Nat) : EM (List (Val × Val)) := do
   match (← getS).heap[addr]? with
   | some (.map es) => pure es
-  | _ => fatal (.crash "heap: not a map")
+  | _ => unsupported "heap address is not a map (cannot arise from the evaluator or the descriptors)"
 def heapSet (addr : Nat) (o : HeapObj) : EM Unit := modifyS fun s => { s with heap := s.heap.set! addr o }
 
 def heapView (s : ES) : HeapView := fun a => match s.heap[a]? with | some (.slice items) => some items | _ => none
@@ -243,12 +243,17 @@ def floatOfLit (lit : Bytes) : Option Dyadic :=
       if d.exact then some d else none
     else none
 
+mutual
+def flattenRet : Val → List Val
+  | .ret vs => flattenRets vs
+  | v => [v]
+def flattenRets : List Val → List Val
+  | [] => []
+  | v :: r => flattenRet v ++ flattenRets r
+end
+
 /-- unwrap what a user function's body evaluated to: the value of the first `return` reached, or —
     when the body also produced output — the sequence of that output followed by the value -/
-partial def flattenRet : Val → List Val
-  | .ret vs => vs.flatMap flattenRet
-  | v => [v]
-
 def unwrapReturn (v : Val) : Val :=
   match v with
   | .ret _ =>
@@ -276,6 +281,115 @@ def applyOpOut (o : OpOut) (kindTag : String) : EM Val :=
   | .divZero => fail "division-by-zero"
   | .regex => unsupported "regexp"
   | .unknownOp => fail ("unknown-operator-" ++ kindTag)
+
+/-- the operator application of `evalInfixExpression` once both operands are values (not && / ||) -/
+def applyInfix (op : Bytes) (lres rres : Val) : EM Val :=
+  if lres.isNil || rres.isNil then applyOpOut (Gen.nilsOperator op (bothNil lres rres)) "nil"
+  else match lres with
+  | .str ls =>
+    -- only `+` (and the pattern of `~=`) takes the printed form of a non-string right operand
+    let rIsString := match rres with | .str _ | .html _ => true | _ => false
+    if !rIsString && op != [43] && op != [126, 61] then fail "unable-to-operate"    -- "+", "~="
+    else
+      match sprint rres with
+      | some rr => applyOpOut (Gen.stringsOperator op ls rr) "string"
+      | none => unsupported "Sprint of a composite value"
+  | .int li =>
+    match rres with
+    | .int ri => applyOpOut (Gen.intsOperator op li ri) "int"
+    | _ => fail "unable-to-operate"
+  | .float lf =>
+    match rres with
+    | .float rf => applyOpOut (Gen.floatsOperator op lf rf) "float"
+    | _ => fail "unable-to-operate"
+  | .bool _ => applyOpOut (Gen.boolsOperator op (isTruthy lres) (isTruthy rres)) "bool"
+  | .list ety addr =>
+    if op == [43] then
+      match ety, rres.ty with
+      | .any, _ => do
+          let items ← heapSlice addr
+          let a ← allocSlice (items.push rres)
+          pure (.rv (.list ety a))
+      | e, some t =>
+          if e == t then do
+            let items ← heapSlice addr
+            let a ← allocSlice (items.push rres)
+            pure (.rv (.list ety a))
+          else fail "cannot-append"
+      | _, none => fail "cannot-append"
+    else fail "unknown-operator-array"
+  | .ilist _ => unsupported "operator on an evaluator-built slice"
+  | _ => fail "unable-to-operate"
+
+/-- `evalUpdateIndex` -/
+def updateIndex (left index value : Val) : EM Val :=
+  match left with
+  | .map kty vty addr =>
+      match index.ty with
+      | none => fail "nil-map-key"
+      | some t =>
+        if !assignableTo t kty then fail "map-key-type"
+        else if !value.isNil && !(match value.ty with | some vt => assignableTo vt vty | none => false) then
+          fail "map-value-type"
+        else do
+          let es ← heapMap addr
+          heapSet addr (.map (if value.isNil then mapDelete index es else mapSet index value es))
+          pure .nil
+  | .list ety addr =>
+      match index with
+      | .int ix => do
+          let items ← heapSlice addr
+          if ix < 0 || (items.size : Int) - 1 < ix then fail "index-out-of-bounds"
+          else
+            let value' := if value.isNil then zeroOf ety else value
+            if ety != .any && value'.ty != some ety then fail "cannot-assign-element"
+            else do
+              heapSet addr (.slice (items.set! ix.toNat value'))
+              pure .nil
+      | _ => fail "non-int-index"
+  | .ilist _ => unsupported "index assignment on an evaluator-built slice"
+  | _ => fail "could-not-index"
+
+/-- `evalAccessIndex` (`hasCallee`: an index-then-member access, outside the modelled fragment) -/
+def accessIndex (left index : Val) (hasCallee : Bool) : EM Val :=
+  match left with
+  | .map kty _ addr =>
+      match index.ty with
+      | none => fail "nil-map-key"
+      | some t =>
+        if kty != .any && t != kty then fail "map-key-type"
+        else do
+          let es ← heapMap addr
+          match mapLookup index es with
+          | none => pure .nil
+          | some x =>
+            if hasCallee then unsupported "index-then-member" else pure x
+  | .list _ addr =>
+      match index with
+      | .int ix => do
+          let items ← heapSlice addr
+          if ix < 0 || (items.size : Int) - 1 < ix then fail "index-out-of-bounds"
+          else
+            if hasCallee then unsupported "index-then-member" else pure (items.getD ix.toNat .nil)
+      | _ => fail "non-int-index"
+  | .ilist vs =>
+      match index with
+      | .int ix =>
+          if ix < 0 || (vs.length : Int) - 1 < ix then fail "index-out-of-bounds"
+          else if hasCallee then unsupported "index-then-member" else pure (vs.getD ix.toNat .nil)
+      | _ => fail "non-int-index"
+  | _ => fail "could-not-index"
+
+/-- run `m` with `c` as the evaluator's current context; the previous context is current again afterwards,
+    on success and on error (Go: `octx := c.ctx; defer func() { c.ctx = octx }(); c.ctx = …`) -/
+def withCtx {α} (c : Nat) (m : EM α) : EM α := do
+  let octx ← getCur
+  setCur c
+  let r ← attempt m
+  setCur octx
+  match r with
+  | .ok v => pure v
+  | .error e => throwErr e
 
 def lookupKeyB (k : Bytes) : List (Bytes × Bytes) → Option Bytes
   | [] => none
@@ -396,43 +510,7 @@ def evalInfix : Nat → Bytes → Option Expr → Option Expr → EM Val
       | .ok v => pure v
       | .error e => if tolerant && e.direct then pure Val.nil else throwErr e
     if op == [38, 38] || op == [124, 124] then return .bool (isTruthy rres)
-    if lres.isNil || rres.isNil then
-      return (← applyOpOut (Gen.nilsOperator op (bothNil lres rres)) "nil")
-    match lres with
-    | .str ls =>
-      -- only `+` (and the pattern of `~=`) takes the printed form of a non-string right operand
-      let rIsString := match rres with | .str _ | .html _ => true | _ => false
-      if !rIsString && op != [43] && op != [126, 61] then fail "unable-to-operate"    -- "+", "~="
-      else
-        match sprint rres with
-        | some rr => applyOpOut (Gen.stringsOperator op ls rr) "string"
-        | none => unsupported "Sprint of a composite value"
-    | .int li =>
-      match rres with
-      | .int ri => applyOpOut (Gen.intsOperator op li ri) "int"
-      | _ => fail "unable-to-operate"
-    | .float lf =>
-      match rres with
-      | .float rf => applyOpOut (Gen.floatsOperator op lf rf) "float"
-      | _ => fail "unable-to-operate"
-    | .bool _ => applyOpOut (Gen.boolsOperator op (isTruthy lres) (isTruthy rres)) "bool"
-    | .list ety addr =>
-      if op == [43] then
-        match ety, rres.ty with
-        | .any, _ => do
-            let items ← heapSlice addr
-            let a ← allocSlice (items.push rres)
-            pure (.rv (.list ety a))
-        | e, some t =>
-            if e == t then do
-              let items ← heapSlice addr
-              let a ← allocSlice (items.push rres)
-              pure (.rv (.list ety a))
-            else fail "cannot-append"
-        | _, none => fail "cannot-append"
-      else fail "unknown-operator-array"
-    | .ilist _ => unsupported "operator on an evaluator-built slice"
-    | _ => fail "unable-to-operate"
+    applyInfix op lres rres
 
 /-- `evalIfExpression` + `evalElseAndElseIfExpressions` -/
 def evalIf : Nat → Option Expr → Block → List (Token × Option Expr × Block) → Option Block → EM Val
@@ -479,7 +557,16 @@ def evalStmts : Nat → List Stmt → List Val → EM Val
 def evalStmt : Nat → Stmt → EM Val
   | 0, _ => fatal .outOfFuel
   | fuel+1, s => do
+    -- once a statement has completed, its enclosing statement is current again (the `defer` of evalStatement)
+    let outer := (← getS).curStmt
     modifyS fun st => { st with curStmt := some s.tok.line }
+    let r ← evalStmtBody fuel s
+    modifyS fun st => { st with curStmt := outer }
+    pure r
+
+def evalStmtBody : Nat → Stmt → EM Val
+  | 0, _ => fatal .outOfFuel
+  | fuel+1, s => do
     match s with
     | .es _ e => do
         let v ← evalExpr fuel e
@@ -504,32 +591,32 @@ def evalFor : Nat → Bytes → Bytes → Option Expr → Option Block → EM Va
     let octx ← getCur
     let c ← ctxNewChild octx
     copyFrame octx c
-    setCur c
-    let r ← attempt (do
-      let iter ← evalExpr fuel it
-      match bl with
-      | none => fatal (.crash "evalForExpression: nil Block")
-      | some block =>
-        match iter with
-        | .nil => pure Val.nil
-        | .list _ addr | .rv (.list _ addr) => do
-            -- (a reflect.Value is not iterable in Go; `.rv` falls to the error case below)
-            match iter with
-            | .rv _ => fail "could-not-iterate"
-            | _ =>
-              let items ← heapSlice addr
-              forItems fuel key val block (items.toList.zipIdx.map fun (v, i) => (Val.int i, v)) []
-        | .ilist vs => forItems fuel key val block (vs.zipIdx.map fun (v, i) => (Val.int i, v)) []
-        | .map _ _ addr => do
-            let es ← heapMap addr
-            forItems fuel key val block es []
-        | .iter pos end_ done => forRanger fuel key val block { pos := pos, end_ := end_, done := done } 0 []
-        | .giter groups => forItems fuel key val block (groups.zipIdx.map fun (v, i) => (Val.int i, v)) []
-        | _ => fail "could-not-iterate")
-    setCur octx
-    match r with
-    | .ok v => pure v
-    | .error e => throwErr e
+    withCtx c (forBody fuel key val it bl)
+
+/-- the part of `evalForExpression` that runs in the loop's own scope -/
+def forBody : Nat → Bytes → Bytes → Option Expr → Option Block → EM Val
+  | 0, _, _, _, _ => fatal .outOfFuel
+  | fuel+1, key, val, it, bl => do
+    let iter ← evalExpr fuel it
+    match bl with
+    | none => fatal (.crash "evalForExpression: nil Block")
+    | some block =>
+      match iter with
+      | .nil => pure Val.nil
+      | .list _ addr | .rv (.list _ addr) => do
+          -- (a reflect.Value is not iterable in Go; `.rv` falls to the error case below)
+          match iter with
+          | .rv _ => fail "could-not-iterate"
+          | _ =>
+            let items ← heapSlice addr
+            forItems fuel key val block (items.toList.zipIdx.map fun (v, i) => (Val.int i, v)) []
+      | .ilist vs => forItems fuel key val block (vs.zipIdx.map fun (v, i) => (Val.int i, v)) []
+      | .map _ _ addr => do
+          let es ← heapMap addr
+          forItems fuel key val block es []
+      | .iter pos end_ done => forRanger fuel key val block { pos := pos, end_ := end_, done := done } 0 []
+      | .giter groups => forItems fuel key val block (groups.zipIdx.map fun (v, i) => (Val.int i, v)) []
+      | _ => fail "could-not-iterate"
 
 /-- the per-element loop body shared by the three iteration forms -/
 def forItems : Nat → Bytes → Bytes → Block → List (Val × Val) → List Val → EM Val
@@ -567,68 +654,8 @@ def evalIndex : Nat → Option Expr → Option Expr → Option Expr → Option E
     match v with
     | some ve => do
         let value ← evalExpr fuel (some ve)
-        -- evalUpdateIndex
-        match left with
-        | .map kty vty addr =>
-            match index.ty with
-            | none => fail "nil-map-key"
-            | some t =>
-              if !assignableTo t kty then fail "map-key-type"
-              else if !value.isNil && !(match value.ty with | some vt => assignableTo vt vty | none => false) then
-                fail "map-value-type"
-              else do
-                let es ← heapMap addr
-                heapSet addr (.map (if value.isNil then mapDelete index es else mapSet index value es))
-                pure .nil
-        | .list ety addr =>
-            match index with
-            | .int ix => do
-                let items ← heapSlice addr
-                if ix < 0 || (items.size : Int) - 1 < ix then fail "index-out-of-bounds"
-                else
-                  let value' := if value.isNil then zeroOf ety else value
-                  if ety != .any && value'.ty != some ety then fail "cannot-assign-element"
-                  else do
-                    heapSet addr (.slice (items.set! ix.toNat value'))
-                    pure .nil
-            | _ => fail "non-int-index"
-        | .ilist _ => unsupported "index assignment on an evaluator-built slice"
-        | _ => fail "could-not-index"
-    | none =>
-        -- evalAccessIndex
-        match left with
-        | .map kty _ addr =>
-            match index.ty with
-            | none => fail "nil-map-key"
-            | some t =>
-              if kty != .any && t != kty then fail "map-key-type"
-              else do
-                let es ← heapMap addr
-                match mapLookup index es with
-                | none => pure .nil
-                | some x =>
-                  match callee with
-                  | some _ => unsupported "index-then-member"
-                  | none => pure x
-        | .list _ addr =>
-            match index with
-            | .int ix => do
-                let items ← heapSlice addr
-                if ix < 0 || (items.size : Int) - 1 < ix then fail "index-out-of-bounds"
-                else
-                  match callee with
-                  | some _ => unsupported "index-then-member"
-                  | none => pure (items.getD ix.toNat .nil)
-            | _ => fail "non-int-index"
-        | .ilist vs =>
-            match index with
-            | .int ix =>
-                if ix < 0 || (vs.length : Int) - 1 < ix then fail "index-out-of-bounds"
-                else match callee with
-                  | some _ => unsupported "index-then-member"
-                  | none => pure (vs.getD ix.toNat .nil)
-            | _ => fail "non-int-index"
-        | _ => fail "could-not-index"
+        updateIndex left index value
+    | none => accessIndex left index callee.isSome
 
 /-- `evalUserFunction`: arguments are evaluated in the caller's scope, then bound in a fresh child scope -/
 def evalUserFn : Nat → List Ident → Block → List (Option Expr) → EM Val
@@ -639,14 +666,15 @@ def evalUserFn : Nat → List Ident → Block → List (Option Expr) → EM Val
       let vals ← evalExprs fuel (args.take params.length)
       let octx ← getCur
       let c ← ctxNewChild octx
-      setCur c
-      let r ← attempt (do
-        (params.zip vals).forM fun (p, v) => ctxSet p.value v
-        evalBlock fuel body)
-      setCur octx
-      match r with
-      | .ok v => pure (unwrapReturn v)
-      | .error e => throwErr e
+      let r ← withCtx c (fnBody fuel params vals body)
+      pure (unwrapReturn r)
+
+/-- parameter binding and body of a user function, in the call's own scope -/
+def fnBody : Nat → List Ident → List Val → Block → EM Val
+  | 0, _, _, _ => fatal .outOfFuel
+  | fuel+1, params, vals, body => do
+    (params.zip vals).forM fun (p, v) => ctxSet p.value v
+    evalBlock fuel body
 
 /-- `evalCallExpression` -/
 def evalCall : Nat → Option Expr → Option Expr → Expr → Option (List (Option Expr)) → Option Block → EM Val
@@ -736,13 +764,8 @@ def blockWith : Nat → Option Block → Nat → EM Bytes
     match blk with
     | none => fail "no-block-defined"
     | some bl =>
-      let octx ← getCur
-      setCur ctx
-      let r ← attempt (evalBlock fuel bl)
-      setCur octx
-      match r with
-      | .ok v => renderVal v
-      | .error e => throwErr e
+      let v ← withCtx ctx (evalBlock fuel bl)
+      renderVal v
 
 /-- the helper bodies; errors returned by a helper are wrapped by the call site (`could not call … %w`) -/
 def callHelper : Nat → String → List Val → EM Val
